@@ -375,6 +375,25 @@ func genC12(r *rand.Rand, run int, tier string) *vm.Plan {
 		blocks = append(blocks, g.BlockFor(auth.Facts, 3, 2, 2))
 	}
 	az := g.AuthzFor(auth.Facts, 4, 3, 3, 3)
+	if r.Intn(150) == 0 {
+		// a wide join: 41-43 facts n(i) and a check over three of them that only n(max), n(max), n(max)
+		// satisfies, i.e. one combination out of ~70 000, whose position in the enumeration depends on
+		// the order in which the facts were supplied (the replicas get them in different orders)
+		n := 41 + r.Intn(3)
+		auth = ref.Block{}
+		for i := 0; i < n; i++ {
+			auth.Facts = append(auth.Facts, ref.Pred{Name: "n", Terms: []ref.Term{ref.Int(int64(i))}})
+		}
+		blocks = nil
+		v := ref.Var
+		sum := ref.Bin("+", ref.Bin("+", ref.Leaf(v("a")), ref.Leaf(v("b"))), ref.Leaf(v("c")))
+		az = ref.Authz{
+			Checks: []ref.Check{{Queries: []ref.Rule{{Head: ref.Pred{Name: "query"},
+				Body:  []ref.Pred{{Name: "n", Terms: []ref.Term{v("a")}}, {Name: "n", Terms: []ref.Term{v("b")}}, {Name: "n", Terms: []ref.Term{v("c")}}},
+				Exprs: []ref.Expr{ref.Bin("==", sum, ref.Leaf(ref.Int(int64(3*(n-1)))))}}}}},
+			Policies: []ref.Policy{{Allow: true, Queries: []ref.Rule{gen.TrueQuery()}}},
+		}
+	}
 	var qs []ref.Rule
 	for i := 1 + r.Intn(2); i > 0; i-- {
 		qs = append(qs, g.QueryFrom(append(append([]ref.Pred{}, auth.Facts...), az.Facts...)))
@@ -433,7 +452,7 @@ func genC12(r *rand.Rand, run int, tier string) *vm.Plan {
 func init() {
 	register(&Spec{
 		ID: "C12", Level: "exploration", Quick: 3000, Thorough: 300000,
-		Rule: "2-4 verifier replicas receive the same logical request presented differently: authority facts and rules built in another order, authorizer facts / rules / checks added in a random interleaving, queries inside a check permuted, a fact duplicated, variables renamed consistently per rule (also onto strings used as constants) on one replica, Authorize repeated 1-2 more times on the same authorizer; policies keep their order. Replica agreement on the verdict class, the number of failed checks, the result sets of a query panel and the set of derived facts (one query per predicate signature; PrintWorld is not used because it prints strings inside sets as raw symbol indexes, which depend on interning order); a repeated Authorize must equal the first. non-trivial = a replica group was compared (distinct by plan hash)",
+		Rule: "2-4 verifier replicas receive the same logical request presented differently: authority facts and rules built in another order, authorizer facts / rules / checks added in a random interleaving, queries inside a check permuted, a fact duplicated, variables renamed consistently per rule (also onto strings used as constants) on one replica, Authorize repeated 1-2 more times on the same authorizer; policies keep their order; a quarter of the groups run under a fact limit just above what the request needs; one group in 150 is a three-way join over 41-43 facts with exactly one satisfying combination. Replica agreement on the verdict class, the number of failed checks, the result sets of a query panel and the set of derived facts (one query per predicate signature; PrintWorld is not used because it prints strings inside sets as raw symbol indexes, which depend on interning order); a repeated Authorize must equal the first. non-trivial = a replica group was compared (distinct by plan hash)",
 		Gen: genC12,
 		Oracles: func(m *vm.VM) []vm.Oracle {
 			return []vm.Oracle{vm.Common{Prop: "C12"}, vm.AgreeOracle{Prop: "C12", Invariant: "replicas-disagree", NFailed: true, Queries: true}, vm.RepeatOracle{}, vm.VerdictOracle{Prop: "C04"}}
